@@ -39,7 +39,7 @@ Qed.
 Section Pluto.
 Variables yv j j1 l1 b1 r1 l2 b2 r2 sxj syj szj : R.
 Hypothesis Hyear : Epoch_year Rops (ep j) = VFloat yv.
-Hypothesis Hy : 1885 <= yv <= 2099.
+Hypothesis Hy : 1885 <= yv < 2100.
 Hypothesis HP1 : Pluto_geometric_heliocentric_position Rops (ep j) = VTuple [ang l1; ang b1; VFloat r1].
 Hypothesis Hsun : Sun_rectangular_coordinates_j2000 Rops (ep j) = VTuple [VFloat sxj; VFloat syj; VFloat szj].
 Definition xi1 := pxE l1 b1 r1 + sxj. Definition eta1 := pyE l1 b1 r1 + syj. Definition zeta1 := pzE l1 b1 r1 + szj.
@@ -77,7 +77,7 @@ Proof. unfold ep, ang, angT in *. pyrun9_using dec_p. reflexivity. Qed.
 
 End Pluto.
 
-(* outside 1885-2099 the body refuses with ValueError before calling anything else *)
+(* outside [1885, 2100) the body refuses with ValueError before calling anything else *)
 Section Refuse.
 Variables yv j : R.
 Hypothesis Hyear : Epoch_year Rops (ep j) = VFloat yv.
@@ -85,7 +85,7 @@ Ltac py9_hook s tac ::=
   lazymatch s with
   | Epoch_year Rops _ => rw_with s Hyear
   end.
-Theorem pluto_geo_refuses : yv < 1885 \/ 2099 < yv ->
+Theorem pluto_geo_refuses : yv < 1885 \/ 2100 <= yv ->
   Pluto_geocentric_position Rops (ep j) = VErr ValueError.
 Proof.
   intros [H | H]; unfold ep in *.
